@@ -7,9 +7,9 @@ PROP = dict(
                        "C37_contents_nodup", "C37_ids_stable", "C37_derived_clone_dangles", "C37_repaired_clone_ok"],
     harness_bin="c37",
     mismatch_is_violation=False,
-    rule="operation histories over up to 5 simultaneously live sets, for IdSet<String> and IdSet<i64>: 3 regression "
+    rule="operation histories over up to 5 simultaneously live sets, for IdSet<String> and IdSet<i64>: 6 regression "
          "histories each (the D13 witness clone+drop original+lookup in the clone; clone+clear original; duplicate insert "
-         "on a full buffer), then (quick) 400 x <=40 ops / (thorough) 6000 x <=160 ops seeded histories per element type "
+         "on a full buffer; clear then re-insert the last value; clone, clear, re-insert; repeated inserts across a buffer switch), then (quick) 400 x <=40 ops / (thorough) 6000 x <=160 ops seeded histories per element type "
          "(insert 45%, try_get_id 10%, contains 5%, index incl. out of range 8%, len, iter, layout dump, clone, drop, clear, "
          "into_iter, new; the scenario 'clone h; drop or clear h; get/insert/iter/index on the clone' is forced with "
          "probability 1/14 per step); values from a pool of 37 per type restricted per history to 2..37 so that duplicates "
